@@ -1,3 +1,6 @@
 SPECIFICATION FairSpec
-INVARIANTS TypeOK LevelA AtExit NeverAbandoned ClientFailuresTolerated DropsExact BlockingNeverDrops NonBlockingNeverBlocks ParkedOnFull GaugeExact PendingBelowThreshold
+INVARIANTS TypeOK LevelA ExitNothingLeftBehind ExitAllTransmitted ExitErrsCounted ExitSpuriousError ExitOutCounted ExitDropsCounted ExitParseCounted ExitGaugeZero AtExit
+INVARIANTS NeverAbandoned ClientFailuresTolerated DropsExact BlockingNeverDrops NonBlockingNeverBlocks ParkedOnFull GaugeExact PendingBelowThreshold
 CHECK_DEADLOCK FALSE
+CONSTANTS
+  Record = FALSE
